@@ -4,6 +4,8 @@ import TF.Proofs.BFieldZMod
 import TF.Proofs.XField
 import TF.Proofs.Shah
 import TF.Proofs.XFieldInv
+import TF.Proofs.BFieldMore
+import TF.Proofs.XFieldMore
 /-!
 # C01 — base and extension field arithmetic is exact and canonical
 
@@ -227,5 +229,314 @@ theorem xfe_div_exact (a b : XF.X3) (ha : TF.XFp.canon3 a) (hb : TF.XFp.canon3 b
         XF.mul r b = a) :=
   TF.XFInvProofs.div_spec a b ha hb
 example : TF.XFp.canon3 XF.one ∧ XF.one ≠ XF.zero := ⟨TF.XFInvProofs.canon3_one, by decide⟩
+
+/-! ## Growth: the rest of the public surface of `b_field_element.rs`, `x_field_element.rs`, `traits.rs`
+
+The one-liners `bfe_increment`, `bfe_decrement`, `bfe_add_assign`, `bfe_sub_assign`, `bfe_mul_assign`, `bfe_neg`, `bfe_square`,
+`bfe_generator`, `bfe_zero/one`, `bfe_is_zero/is_one`, `bfe_is_canonical`, `bfe_raw_u64/u128`, `bfe_from_raw_u64`,
+`bfe_raw_u16s`, `bfe_from_raw_u16s`, `bfe_raw_bytes`, `bfe_from_raw_bytes` are **regenerated from the source** on every
+run (`TF/Gen/BField.lean`); the loops are modelled in `TF/Model/BFieldMore.lean`. -/
+
+/-- `increment` / `decrement`: `+1` / `-1` modulo `P`, canonical, no overflow -/
+theorem increment_decrement_exact (a : Nat) (ha : a < P) :
+    (bfe_increment a < P ∧ bfe_value (bfe_increment a) = (bfe_value a + 1) % P ∧ bfe_increment_ok a = true) ∧
+    (bfe_decrement a < P ∧ (bfe_value (bfe_decrement a) + 1) % P = bfe_value a ∧ bfe_decrement_ok a = true) := by
+  have h1 := add_spec a BF.one ha canon_one
+  have h2 := sub_spec a BF.one ha canon_one
+  rw [show bfe_value BF.one = 1 from val_one] at h1 h2
+  exact ⟨⟨h1.1, h1.2, add_ok a BF.one (Nat.le_of_lt canon_one)⟩, ⟨h2.1, h2.2, sub_ok a BF.one⟩⟩
+example : bfe_value (bfe_increment (bfe_new 18446744069414584320)) = 0 ∧
+    bfe_value (bfe_decrement (bfe_new 0)) = 18446744069414584320 := by decide
+
+/-- the assign operators `+=`, `-=`, `*=` are the binary operators (so `add_exact`, `sub_exact`, `mul_exact` apply);
+    `Neg` is `0 - a`; `FiniteField::square` is `a * a` -/
+theorem assign_ops_exact (a b : Nat) :
+    bfe_add_assign a b = bfe_add a b ∧ bfe_sub_assign a b = bfe_sub a b ∧ bfe_mul_assign a b = bfe_mul a b ∧
+    bfe_add_assign_ok a b = bfe_add_ok a b ∧ bfe_sub_assign_ok a b = bfe_sub_ok a b ∧ bfe_mul_assign_ok a b = bfe_mul_ok a b ∧
+    bfe_neg a = BF.neg a ∧ bfe_square a = bfe_mul a a :=
+  ⟨rfl, rfl, rfl, rfl, rfl, rfl, rfl, rfl⟩
+
+/-- `Neg` and `square` on canonical elements: canonical, `(-a) + a = 0`, `square a = a²` -/
+theorem neg_square_exact (a : Nat) (ha : a < P) :
+    (bfe_neg a < P ∧ toF (bfe_neg a) = - toF a ∧ bfe_neg_ok a = true) ∧
+    (bfe_square a < P ∧ toF (bfe_square a) = toF a ^ 2 ∧ bfe_square_ok a = true) :=
+  ⟨⟨TF.XFp.canon_neg a ha, toF_neg a ha, sub_ok _ a⟩,
+   ⟨canon_mul a a ha ha, by rw [show bfe_square a = bfe_mul a a from rfl, toF_mul a a ha ha, pow_two], mul_ok a a ha ha⟩⟩
+example : bfe_value (bfe_neg (bfe_new 1)) = 18446744069414584320 := by decide
+
+/-- `raw_u16s` / `from_raw_u16s`: the four little-endian 16-bit chunks of the raw word; mutually inverse on all
+    64-bit words and all chunk arrays -/
+theorem raw_u16s_roundtrip :
+    (∀ a, a < 2^64 → bfe_raw_u16s a = [a % 65536, a / 65536 % 65536, a / 4294967296 % 65536, a / 281474976710656 % 65536] ∧
+      BF.fromRawU16s (bfe_raw_u16s a) = some a) ∧
+    (∀ c0 c1 c2 c3, c0 < 65536 → c1 < 65536 → c2 < 65536 → c3 < 65536 →
+      bfe_from_raw_u16s c0 c1 c2 c3 = c0 + 65536 * c1 + 4294967296 * c2 + 281474976710656 * c3 ∧
+      bfe_raw_u16s (bfe_from_raw_u16s c0 c1 c2 c3) = [c0, c1, c2, c3]) := by
+  constructor
+  · intro a ha
+    refine ⟨raw_u16s_eq a, ?_⟩
+    rw [raw_u16s_eq a]
+    rw [fromRawU16s_eq, from_raw_u16s_eq _ _ _ _ (Nat.mod_lt _ (by decide)) (Nat.mod_lt _ (by decide)) (Nat.mod_lt _ (by decide))
+      (Nat.mod_lt _ (by decide))]
+    congr 1; omega
+  · intro c0 c1 c2 c3 h0 h1 h2 h3
+    refine ⟨from_raw_u16s_eq c0 c1 c2 c3 h0 h1 h2 h3, ?_⟩
+    rw [from_raw_u16s_eq c0 c1 c2 c3 h0 h1 h2 h3, raw_u16s_eq]
+    have e0 : (c0 + 65536 * c1 + 4294967296 * c2 + 281474976710656 * c3) % 65536 = c0 := by omega
+    have e1 : (c0 + 65536 * c1 + 4294967296 * c2 + 281474976710656 * c3) / 65536 % 65536 = c1 := by omega
+    have e2 : (c0 + 65536 * c1 + 4294967296 * c2 + 281474976710656 * c3) / 4294967296 % 65536 = c2 := by omega
+    have e3 : (c0 + 65536 * c1 + 4294967296 * c2 + 281474976710656 * c3) / 281474976710656 % 65536 = c3 := by omega
+    rw [e0, e1, e2, e3]
+example : bfe_raw_u16s 18446744069414584320 = [0, 0, 65535, 65535] := by decide
+
+/-- `raw_bytes` / `from_raw_bytes`: the eight little-endian bytes of the raw word; mutually inverse on all 64-bit words
+    and all byte arrays -/
+theorem raw_bytes_roundtrip :
+    (∀ a, a < 2^64 → BF.fromRawBytes (bfe_raw_bytes a) = some a ∧ ∀ b ∈ bfe_raw_bytes a, b < 256) ∧
+    (∀ b0 b1 b2 b3 b4 b5 b6 b7, b0 < 256 → b1 < 256 → b2 < 256 → b3 < 256 → b4 < 256 → b5 < 256 → b6 < 256 → b7 < 256 →
+      bfe_from_raw_bytes b0 b1 b2 b3 b4 b5 b6 b7 < 2^64 ∧
+      bfe_raw_bytes (bfe_from_raw_bytes b0 b1 b2 b3 b4 b5 b6 b7) = [b0, b1, b2, b3, b4, b5, b6, b7]) := by
+  constructor
+  · intro a ha
+    rw [raw_bytes_eq]
+    refine ⟨?_, ?_⟩
+    · rw [fromRawBytes_eq, from_raw_bytes_eq, bytes_of_word a ha]
+    · intro b hb
+      simp only [List.mem_cons, List.not_mem_nil, or_false] at hb
+      rcases hb with rfl | rfl | rfl | rfl | rfl | rfl | rfl | rfl <;> exact Nat.mod_lt _ (by decide)
+  · intro b0 b1 b2 b3 b4 b5 b6 b7 h0 h1 h2 h3 h4 h5 h6 h7
+    obtain ⟨hw, e0, e1, e2, e3, e4, e5, e6, e7⟩ := word_of_bytes b0 b1 b2 b3 b4 b5 b6 b7 h0 h1 h2 h3 h4 h5 h6 h7 _
+      (from_raw_bytes_eq b0 b1 b2 b3 b4 b5 b6 b7)
+    refine ⟨hw, ?_⟩
+    rw [raw_bytes_eq, e0, e1, e2, e3, e4, e5, e6, e7]
+example : bfe_raw_bytes 18446744069414584320 = [0, 0, 0, 0, 255, 255, 255, 255] := by decide
+
+/-- **raw constructors and canonicity, stated honestly.**  `from_raw_u64` (and with it `from_raw_u16s`, `from_raw_bytes`)
+    stores any 64-bit word.  `is_canonical w ↔ w < P`.  A canonical word is the word `new` would have produced for its
+    value, so it is an element "obtained through the value-level API"; a non-canonical word `P ≤ w < 2^64` still has a
+    canonical *value* (`w · 2^-64 mod P`) but is **not** the representation `new` chooses for it. -/
+theorem raw_constructors_canonicity (w : Nat) (hw : w < 2^64) :
+    bfe_from_raw_u64 w = w ∧ bfe_raw_u64 w = w ∧ bfe_raw_u128 w = w ∧
+    (bfe_is_canonical w = true ↔ w < P) ∧
+    bfe_value w < P ∧ (bfe_value w * 2^64) % P = w % P ∧
+    (w < P → bfe_new (bfe_value w) = w) ∧
+    (P ≤ w → bfe_new (bfe_value w) ≠ w) := by
+  have hv := value_lt w hw
+  refine ⟨rfl, rfl, rfl, by unfold bfe_is_canonical; simp [P], hv, ?_, new_value w, ?_⟩
+  · unfold bfe_value; exact (montyred_spec w (by unfold Pn W at *; omega)).2
+  · intro hge heq
+    have := (new_spec (bfe_value w) (Nat.lt_trans hv Pn_lt_W)).1
+    rw [heq] at this
+    unfold canon Pn at this; unfold P at hge; omega
+example : (18446744069414584321 : Nat) < 2^64 ∧ P ≤ 18446744069414584321 := by decide
+
+/-- the concrete witness for what a non-canonical raw word does: the words `P` and `0` both have value `0` but are
+    different words, so derived `Eq`/`Hash` separate two representations of the same field element; and adding a word
+    above `P` on the right overflows (`Self::P - rhs.0` underflows: a panic in debug builds) -/
+theorem noncanonical_raw_word_witness :
+    bfe_value (bfe_from_raw_u64 18446744069414584321) = bfe_value (bfe_from_raw_u64 0) ∧
+    bfe_from_raw_u64 18446744069414584321 ≠ bfe_from_raw_u64 0 ∧
+    BF.fromRawU16s [1, 0, 65535, 65535] = some 18446744069414584321 ∧
+    BF.fromRawBytes [1, 0, 0, 0, 255, 255, 255, 255] = some 18446744069414584321 ∧
+    bfe_is_canonical 18446744069414584321 = false ∧
+    bfe_add_ok 0 18446744069414584322 = false := by decide
+
+/-- constants: `ZERO`/`zero()`/`Default` are the word 0 with value 0, `ONE`/`one()` has value 1, `generator()` is 7,
+    `MINUS_TWO_INVERSE · 2 = -1`, `MAX = P - 1`, `P = 2^64 - 2^32 + 1`; all canonical -/
+theorem constants_exact :
+    bfe_ZERO = 0 ∧ bfe_zero = bfe_ZERO ∧ BF.default = bfe_ZERO ∧ bfe_value bfe_ZERO = 0 ∧
+    bfe_ONE < P ∧ bfe_one = bfe_ONE ∧ bfe_value bfe_ONE = 1 ∧
+    bfe_generator < P ∧ bfe_value bfe_generator = 7 ∧ bfe_generator_ok = true ∧
+    bfe_new MINUS_TWO_INVERSE < P ∧ (2 * bfe_value (bfe_new MINUS_TWO_INVERSE) + 1) % P = 0 ∧
+    P = 2^64 - 2^32 + 1 ∧ BFE_BYTES = 8 := by decide
+
+/-- `generator()` generates the whole multiplicative group: its order is `P - 1` -/
+theorem generator_exact : orderOf (toF bfe_generator) = P - 1 := by
+  rw [toF_generator]; exact orderOf_seven
+
+/-- `is_zero` / `is_one` on canonical elements decide `value = 0` / `value = 1` -/
+theorem is_zero_is_one_exact (a : Nat) (ha : a < P) :
+    (bfe_is_zero a = true ↔ bfe_value a = 0) ∧ (bfe_is_one a = true ↔ bfe_value a = 1) := by
+  constructor
+  · rw [show bfe_is_zero a = (a == BF.zero) from rfl, beq_iff_eq]
+    exact ⟨fun h => h ▸ val_zero, fun h => repr_unique a _ ha canon_zero (h.trans val_zero.symm)⟩
+  · rw [show bfe_is_one a = (a == BF.one) from rfl, beq_iff_eq]
+    exact ⟨fun h => h ▸ val_one, fun h => repr_unique a _ ha canon_one (h.trans val_one.symm)⟩
+example : bfe_is_one (bfe_new 1) = true ∧ bfe_is_zero (bfe_new 1) = false := by decide
+
+/-- `mod_pow_u32` / `mod_pow_u64` are `mod_pow`, i.e. the repeated product, for every exponent -/
+theorem mod_pow_u32_u64_exact (a : Nat) (ha : a < P) (e : Nat) :
+    BF.modPowU32 a e = BF.modPow a e ∧ BF.modPowU64 a e = BF.modPow a e ∧
+    BF.modPowU32 a e < P ∧ bfe_value (BF.modPowU32 a e) = (bfe_value a) ^ e % P :=
+  ⟨rfl, rfl, (modPow_value a ha e).1, (modPow_value a ha e).2⟩
+
+/-- `From<u8/u16/u32/u64/usize>` is `new` (canonical, value `v mod P`); `From<BFieldElement> for u64/u128/i128` is the
+    canonical value -/
+theorem from_to_uint_exact (v : Nat) (hv : v < 2^64) (a : Nat) (ha : a < P) :
+    BF.fromU64 v < P ∧ bfe_value (BF.fromU64 v) = v % P ∧ BF.toU64 a = bfe_value a ∧ BF.toU64 a < P ∧
+    BF.fromU64 (BF.toU64 a) = a :=
+  ⟨(new_spec v hv).1, (new_spec v hv).2, rfl, value_lt a (Nat.lt_trans ha Pn_lt_W), new_value a ha⟩
+
+/-- `Sum`: the sum of the values (zero for the empty iterator), canonical -/
+theorem sum_exact (xs : List Nat) (h : ∀ x ∈ xs, x < P) :
+    BF.sum xs < P ∧ toF (BF.sum xs) = (xs.map toF).sum := sum_spec xs h
+example : ∀ x ∈ [bfe_new 5, bfe_new 18446744069414584320], x < P := by decide
+
+/-- `power_accumulator::<N, M>` lane-wise: `base^(2^M) · tail`, canonical -/
+theorem power_accumulator_exact (m base tail : Nat) (hb : base < P) (ht : tail < P) :
+    BF.powerAccumulator m base tail < P ∧ toF (BF.powerAccumulator m base tail) = toF base ^ (2 ^ m) * toF tail :=
+  powerAccumulator_spec m base tail hb ht
+
+/-- `primitive_root_of_unity(n) = Some(w)`: `w` is the canonical word of the table entry for `n` and has multiplicative
+    order exactly `n` (for `n ≥ 1`); the extension-field version is the lift of the base-field one -/
+theorem primitive_root_exact (n : Nat) :
+    (∀ w, BF.primitiveRoot n = some w →
+      ∃ r, (n, r) ∈ PRIMITIVE_ROOTS ∧ w = bfe_new r ∧ w < P ∧ (0 < n → orderOf (toF w) = n)) ∧
+    XF.primitiveRoot n = (BF.primitiveRoot n).map XF.lift ∧
+    (∀ x, XF.primitiveRoot n = some x → ∃ w, BF.primitiveRoot n = some w ∧ XF.unlift x = some w) := by
+  refine ⟨fun w h => primitiveRoot_spec n w h, rfl, fun x h => ?_⟩
+  unfold XF.primitiveRoot at h
+  cases hb : BF.primitiveRoot n with
+  | none => rw [hb] at h; cases h
+  | some w =>
+    rw [hb] at h; cases h
+    exact ⟨w, rfl, by simp [XF.unlift, XF.newConst, XF.new, show bfe_ZERO = BF.zero from rfl]⟩
+example : BF.primitiveRoot 4294967296 = some (bfe_new 1753635133440165772) ∧ BF.primitiveRoot 3 = none := by decide
+
+/-- **`get_cyclic_group_elements` on the base field** (content and termination).
+    * no bound, `g ≠ 0` of multiplicative order `k`: the loop ends (because `g^k = 1` — `k` exists by Fermat) after
+      `max k 2 - 1` iterations and returns the canonical words of `[1, g, g², …, g^(max k 2 - 1)]`: the whole cyclic
+      group generated by `g` when `k ≥ 2`; for `g = 1` the list is `[1, 1]` (the element is pushed before the test);
+    * bound `m`: the first `min (max k 2) (max m 2)` powers (for `g = 0`: `max m 2` elements `1, 0, 0, …`), so a bound
+      of 0 or 1 acts like 2;
+    * `g = 0` without a bound: the loop never ends (no fuel suffices). -/
+theorem get_cyclic_group_elements_exact (g : Nat) (hg : g < P) :
+    (g ≠ BF.zero → ∀ fuel, max (orderOf (toF g)) 2 ≤ fuel + 1 →
+      ∃ l, BF.cyclicGroup fuel g none = some l ∧ (∀ x ∈ l, x < P) ∧
+        l.map toF = (List.range (max (orderOf (toF g)) 2)).map (fun i => toF g ^ i)) ∧
+    (∀ m fuel L, L = (if g = BF.zero then max m 2 else min (max (orderOf (toF g)) 2) (max m 2)) → L ≤ fuel + 1 →
+      ∃ l, BF.cyclicGroup fuel g (some m) = some l ∧ (∀ x ∈ l, x < P) ∧
+        l.map toF = (List.range L).map (fun i => toF g ^ i)) ∧
+    (∀ fuel, BF.cyclicGroup fuel BF.zero none = none) :=
+  ⟨fun hnz fuel hf => cyclicGroup_none g hg hnz fuel hf,
+   fun m fuel L hL hf => cyclicGroup_some g hg m fuel L hL hf,
+   cyclicGroup_zero_none⟩
+example : BF.cyclicGroup 10 (bfe_new 281474976710656) none =
+      some [bfe_new 1, bfe_new 281474976710656, bfe_new 18446744069414584320, bfe_new 18446462594437873665] ∧
+    BF.cyclicGroup 10 (bfe_new 1) none = some [bfe_new 1, bfe_new 1] ∧
+    BF.cyclicGroup 10 0 (some 0) = some [bfe_new 1, 0] := by decide
+
+/-! ### extension field -/
+
+/-- the assign operators, the operators with the `BFieldElement` on the left, and `Sub` (implemented as `self + (-other)`)
+    agree with the coefficient-wise operators of `xfe_add_sub_exact` / `xfe_mul_exact` on canonical elements; the mixed
+    operators are the operators on the lifted base-field element -/
+theorem xfe_operator_variants_exact (a b : XF.X3) (k : Nat) (ha : TF.XFp.canon3 a) (hb : TF.XFp.canon3 b) (hk : k < P) :
+    XF.addAssign a b = XF.add a b ∧ XF.subAssign a b = XF.sub a b ∧ XF.mulAssign a b = XF.mul a b ∧
+    XF.sub' a b = XF.sub a b ∧ XF.neg' a = XF.neg a ∧
+    XF.addB' a k = XF.addB a k ∧ XF.bAdd k a = XF.addB a k ∧ XF.bMul k a = XF.mulB a k ∧
+    XF.subAssignB a k = XF.subB a k ∧ XF.subB' a k = XF.subB a k ∧ XF.bSub' k a = XF.bSub k a ∧
+    XF.mulAssignB a k = XF.mulB a k ∧
+    XF.addB a k = XF.add a (XF.lift k) ∧ XF.subB a k = XF.sub a (XF.lift k) ∧ XF.mulB a k = XF.mul a (XF.lift k) :=
+  ⟨rfl, rfl, rfl, TF.XFp.sub'_eq a b ha hb, rfl, rfl, rfl, rfl, rfl, TF.XFp.subB'_eq a k ha hk, TF.XFp.bSub'_eq k a ha hk,
+   rfl, TF.XFp.addB_eq_lift a k ha, TF.XFp.subB_eq_lift a k ha, TF.XFp.mulB_eq_lift a k ha hk⟩
+example : TF.XFp.canon3 XF.one ∧ BF.one < P := ⟨TF.XFInvProofs.canon3_one, canon_one⟩
+
+/-- `new_const` = `lift`, `unlift ∘ lift = Some`, `unlift x = Some a` only for `x = lift a`; `is_zero`/`is_one` decide
+    equality with the constants; `TryFrom<&[BFieldElement]>` accepts exactly slices of length 3 -/
+theorem xfe_constructors_exact (a : Nat) (x : XF.X3) (l : List Nat) :
+    XF.newConst a = XF.lift a ∧ XF.unlift (XF.lift a) = some a ∧ (XF.unlift x = some a → x = XF.lift a) ∧
+    XF.unlift' x = XF.unlift x ∧
+    (XF.isZero x = true ↔ x = XF.zero) ∧ (XF.isOne x = true ↔ x = XF.one) ∧
+    (XF.tryFromSlice l = some x ↔ l = [x.1, x.2.1, x.2.2]) ∧ (XF.tryFromSlice l = none ↔ l.length ≠ 3) := by
+  refine ⟨rfl, by simp [XF.unlift, XF.lift], ?_, rfl, TF.XFp.x_is_zero_iff x, TF.XFp.x_is_one_iff x, ?_, ?_⟩
+  · obtain ⟨c0, c1, c2⟩ := x
+    simp only [XF.unlift, XF.lift, Bool.and_eq_true, beq_iff_eq]
+    intro h
+    split at h
+    · rename_i h'; cases h; rw [h'.1, h'.2]
+    · cases h
+  · obtain ⟨c0, c1, c2⟩ := x
+    match l with
+    | [] | [_] | [_, _] | _ :: _ :: _ :: _ :: _ => simp [XF.tryFromSlice]
+    | [d0, d1, d2] => simp [XF.tryFromSlice, XF.new]
+  · match l with
+    | [] | [_] | [_, _] | _ :: _ :: _ :: _ :: _ => simp [XF.tryFromSlice]
+    | [d0, d1, d2] => simp [XF.tryFromSlice]
+
+/-- `XFieldElement::increment(i)` / `decrement(i)`: coefficient `i` is incremented / decremented modulo `P`, the others
+    are untouched, the result is canonical; an index `≥ 3` panics -/
+theorem xfe_increment_decrement_exact (x : XF.X3) (hx : TF.XFp.canon3 x) (i : Nat) (t : Fp) :
+    (3 ≤ i → XF.increment x i = none ∧ XF.decrement x i = none) ∧
+    (i < 3 → ∃ y z, XF.increment x i = some y ∧ XF.decrement x i = some z ∧ TF.XFp.canon3 y ∧ TF.XFp.canon3 z ∧
+      TF.XFp.ev t y = TF.XFp.ev t x + t ^ i ∧ TF.XFp.ev t z = TF.XFp.ev t x - t ^ i) := by
+  constructor
+  · intro hi
+    obtain ⟨n, rfl⟩ : ∃ n, i = n + 3 := ⟨i - 3, by omega⟩
+    exact TF.XFp.increment_oob x n
+  · intro hi
+    exact TF.XFp.incdec_spec x hx i hi t
+example : XF.increment (bfe_new 18446744069414584320, 0, 0) 0 = some (0, 0, 0) ∧ XF.increment (0, 0, 0) 3 = none := by decide
+
+/-- `Sum` on the extension field: coefficient-wise sum (zero for the empty iterator), canonical -/
+theorem xfe_sum_exact (xs : List XF.X3) (h : ∀ x ∈ xs, TF.XFp.canon3 x) (t : Fp) :
+    TF.XFp.canon3 (XF.sum xs) ∧ TF.XFp.ev t (XF.sum xs) = (xs.map (TF.XFp.ev t)).sum := TF.XFp.sum_spec t xs h
+
+/-- **`mod_pow_u64` / `mod_pow_u32` on the extension field are the repeated product**: for every `u64` exponent `e` the
+    result has canonical coefficients and its value is `x · x · … · x` (`e` factors of the specification product
+    `TF.Spec.xmul`, `1` for `e = 0`) -/
+theorem xfe_mod_pow_exact (x : XF.X3) (hx : TF.XFp.canon3 x) (e : Nat) (he : e < 2^64) :
+    TF.XFp.canon3 (XF.modPow x e) ∧ XF.toVal (XF.modPow x e) = TF.XFp.xnpow (XF.toVal x) e ∧
+    XF.modPowU32 x e = XF.modPow x e :=
+  ⟨(TF.XFp.modPow_spec x hx e he).1, (TF.XFp.modPow_spec x hx e he).2, rfl⟩
+example : TF.XFp.xnpow (0, 1, 0) 3 = (18446744069414584320, 1, 0) := by decide
+
+/-- **`get_cyclic_group_elements` on the extension field** (content): if iteration `N` is the first at which the loop's
+    exit test holds — the next power `g^(N+2)` is one, or the bound `m ≤ N + 2` is reached — then with enough fuel the
+    call returns the canonical triples of `[1, g, …, g^(N+1)]` (powers = repeated specification product).  With a bound
+    the loop always ends; zero without a bound never does. -/
+theorem xfe_get_cyclic_group_elements_exact (g : XF.X3) (hg : TF.XFp.canon3 g) (max : Option Nat) :
+    (∀ N fuel, N < fuel →
+      (TF.XFp.xnpow (XF.toVal g) (N + 2) = TF.Spec.xone ∨ ∃ m, max = some m ∧ m ≤ N + 2) →
+      (∀ j, j < N → ¬ (TF.XFp.xnpow (XF.toVal g) (j + 2) = TF.Spec.xone ∨ ∃ m, max = some m ∧ m ≤ j + 2)) →
+      ∃ l, XF.cyclicGroup fuel g max = some l ∧ (∀ x ∈ l, TF.XFp.canon3 x) ∧
+        l.map XF.toVal = (List.range (N + 2)).map (TF.XFp.xnpow (XF.toVal g))) ∧
+    (∀ fuel, XF.cyclicGroup fuel XF.zero none = none) := by
+  constructor
+  · intro N fuel hf hs hb
+    apply TF.XFp.x_cyclicGroup_core g hg max N fuel hf
+    · exact (TF.XFp.xstop_iff g hg max N).2 hs
+    · intro j hj
+      rw [Bool.eq_false_iff, Ne, TF.XFp.xstop_iff g hg max j]
+      exact hb j hj
+  · exact TF.XFp.x_cyclicGroup_zero_none
+example : XF.cyclicGroup 5 (0, 0, 0) (some 3) = some [XF.one, (0, 0, 0), (0, 0, 0)] := by decide
+
+/-- with a bound `m` the extension-field loop always ends (for every `g`, also zero) and returns between 2 and
+    `max m 2` elements `[1, g, g², …]` -/
+theorem xfe_get_cyclic_group_elements_bounded (g : XF.X3) (hg : TF.XFp.canon3 g) (m fuel : Nat) (hf : max m 2 ≤ fuel + 1) :
+    ∃ l, XF.cyclicGroup fuel g (some m) = some l ∧ (∀ x ∈ l, TF.XFp.canon3 x) ∧ 2 ≤ l.length ∧ l.length ≤ max m 2 ∧
+      l.map XF.toVal = (List.range l.length).map (TF.XFp.xnpow (XF.toVal g)) :=
+  TF.XFp.x_cyclicGroup_some g hg m fuel hf
+example : TF.XFp.canon3 XF.one ∧ max 0 2 ≤ 1 + 1 := ⟨TF.XFInvProofs.canon3_one, by decide⟩
+
+/-- NOT YET PROVED (listed under `partial`): without a bound the extension-field loop ends for every non-zero `g`
+    (the multiplicative group of the field with `P³` elements is finite) -/
+def xfe_get_cyclic_group_elements_unbounded_terminates_statement : Prop :=
+  ∀ g : XF.X3, TF.XFp.canon3 g → g ≠ XF.zero → ∃ fuel l, XF.cyclicGroup fuel g none = some l
+
+/-- full statement of `FiniteField::batch_inversion` for `XFieldElement` (NOT YET PROVED, listed under `partial`): any
+    vector of non-zero elements is mapped to the vector of inverses -/
+def xfe_batch_inversion_statement : Prop :=
+  ∀ xs : List XF.X3, (∀ x ∈ xs, TF.XFp.canon3 x ∧ x ≠ XF.zero) →
+    ∃ rs, XF.batchInversion xs = some rs ∧ rs.length = xs.length ∧
+      ∀ i (h1 : i < rs.length) (h2 : i < xs.length), TF.XFp.canon3 rs[i] ∧ XF.mul rs[i] xs[i] = XF.one
+
+/-- proved part of `batch_inversion` on the extension field: the empty vector is returned unchanged and a vector
+    containing zero panics (the model is tied to the crate by correspondence; the harness checks `r·x = 1` on every run) -/
+theorem xfe_batch_inversion_partial (xs : List XF.X3) :
+    XF.batchInversion [] = some [] ∧ (XF.zero ∈ xs → XF.batchInversion xs = none) :=
+  ⟨rfl, TF.XFp.x_batchInversion_zero xs⟩
+example : XF.zero ∈ [XF.one, XF.zero] := by decide
 
 end TF.C01
